@@ -373,6 +373,51 @@ func classes() []class {
 			}
 			return nil
 		}},
+		// a creation request that already carries partitions (a descriptor obtained from Get / List and sent back to
+		// make a similar dataset): placement is the allocator's business - every partition of the new dataset has
+		// min(R, N) member nodes, none of what the client filled in survives (C16)
+		{"create.withpartitions", true, func(e *env, ctx context.Context) error {
+			old, err := dsm(e).Get(ctx, &pb.GetDatasetRequest{DatasetId: e.ds})
+			if err != nil {
+				return err
+			}
+			members := map[uint64]bool{}
+			for _, p := range old.GetPartitions() {
+				for _, n := range p.GetNodeIds() {
+					members[n] = true
+				}
+			}
+			req := &pb.Dataset{Dimension: 3, Space: pb.Space_Euclidean, PartitionCount: 3, ReplicationFactor: 1}
+			for k := 0; k < 3; k++ {
+				req.Partitions = append(req.Partitions, &pb.Partition{Id: id16(byte(200 + k)), NodeIds: []uint64{77, 78}})
+			}
+			d, err := dsm(e).Create(ctx, req)
+			if err != nil {
+				return err
+			}
+			if len(d.GetPartitions()) != 3 {
+				return fmt.Errorf("the new dataset has %d partitions, 3 were asked for", len(d.GetPartitions()))
+			}
+			for _, p := range d.GetPartitions() {
+				if len(p.GetNodeIds()) != 1 || !members[p.GetNodeIds()[0]] {
+					return fmt.Errorf("partition placed on %v: want one member node of %v", p.GetNodeIds(), members)
+				}
+				if len(p.GetId()) == 16 && p.GetId()[0] == 0x60 && p.GetId()[15] >= 200 {
+					return fmt.Errorf("the new dataset uses a partition id the client filled in")
+				}
+			}
+			// and it is usable
+			c2, cancel := context.WithTimeout(context.Background(), 4*time.Second)
+			defer cancel()
+			var last error
+			for try := 0; try < 15; try++ {
+				if _, last = dm(e).Insert(c2, &pb.InsertRequest{DatasetId: d.GetId(), Id: id16(91), Value: vec(3, 1)}); last == nil || strings.Contains(last.Error(), "exists") {
+					return nil
+				}
+				time.Sleep(200 * time.Millisecond)
+			}
+			return fmt.Errorf("the new dataset does not take writes: %v", last)
+		}},
 		{"delete.unknown", false, func(e *env, ctx context.Context) error {
 			_, err := dsm(e).Delete(ctx, &pb.UUIDRequest{Id: id16(9)})
 			return err
